@@ -20,6 +20,7 @@ import copy
 import dataclasses as dc
 import functools
 import itertools as itt
+import threading
 from typing import TypeVar
 import weakref
 
@@ -41,7 +42,11 @@ class _CacheInfo:
 
 
 class LruCache(Mapping[_KeyT, _ValueT]):
-  """A mapping like object for caching with limited size."""
+  """A mapping like object for caching with limited size.
+
+  The cache is shared by the handler threads of a server, every operation is
+  atomic with respect to the others.
+  """
 
   def __init__(self, maxsize=128):
     self.maxsize = maxsize
@@ -49,44 +54,60 @@ class LruCache(Mapping[_KeyT, _ValueT]):
     self.hits = 0
     self.misses = 0
     self.data = collections.OrderedDict()
+    self._lock = threading.RLock()
+
+  def __getstate__(self):
+    # The lock is not picklable, a copy of the cache gets its own.
+    state = self.__dict__.copy()
+    del state['_lock']
+    return state
+
+  def __setstate__(self, state):
+    self.__dict__.update(state)
+    self._lock = threading.RLock()
 
   def __getitem__(self, key):
-    if key not in self.data:
-      self.misses += 1
-      raise KeyError()
-    self.hits += 1
-    value = self.data[key]
-    self.data.move_to_end(key)
-    return value
+    with self._lock:
+      if key not in self.data:
+        self.misses += 1
+        raise KeyError()
+      self.hits += 1
+      value = self.data[key]
+      self.data.move_to_end(key)
+      return value
 
   def __setitem__(self, key, value):
-    key_is_new = key not in self.data
-    self.data[key] = value
-    if key_is_new:
-      self.currsize += 1
-      self.data.move_to_end(key)
-    if self.currsize > self.maxsize:
-      oldest = next(iter(self.data))
-      del self.data[oldest]
-      self.currsize -= 1
+    with self._lock:
+      key_is_new = key not in self.data
+      self.data[key] = value
+      if key_is_new:
+        self.currsize += 1
+        self.data.move_to_end(key)
+      if self.currsize > self.maxsize:
+        oldest = next(iter(self.data))
+        del self.data[oldest]
+        self.currsize -= 1
 
   def cache_insert(self, key, value):
     self.__setitem__(key, value)
 
   def __contains__(self, key):
-    return key in self.data
+    with self._lock:
+      return key in self.data
 
   def __iter__(self) -> Iterator[_KeyT]:
-    return iter(self.data)
+    with self._lock:
+      return iter(list(self.data))
 
   def __len__(self) -> int:
     return self.currsize
 
   def cache_clear(self):
-    self.data.clear()
-    self.currsize = 0
-    self.hits = 0
-    self.misses = 0
+    with self._lock:
+      self.data.clear()
+      self.currsize = 0
+      self.hits = 0
+      self.misses = 0
 
   def cache_info(self) -> _CacheInfo:
     return _CacheInfo(
